@@ -35,6 +35,16 @@ def engine(E, props):
                 return True if z3.eq(y.t, DONE) else y.t == DONE     # object(): identical iff it is that object
         return None
     E.builtins['__identical__'] = ident
+    says_equal = z3.Function('element_eq_says_yes_to_the_sentinel', ValS, B)
+
+    def eq_hook(E_, a, b):
+        # `==` against the sentinel asks the ELEMENT's __eq__ (an element may answer yes to anything, like
+        # unittest.mock.ANY); only identity is reliable
+        for x, y in ((a, b), (b, a)):
+            if isinstance(x, VVal) and z3.eq(x.t, DONE) and isinstance(y, VVal) and y.t.sort() == ValS:
+                return True if z3.eq(y.t, DONE) else z3.Or(y.t == DONE, says_equal(y.t))
+        return None
+    E.builtins['__eq__'] = eq_hook
 
 
 class Source:
